@@ -182,6 +182,27 @@ def _limits(mem_gb):
     return f
 
 
+_live = set()
+_live_lock = threading.Lock()
+
+
+def _kill_all(signum=None, frame=None):
+    """SIGTERM/SIGINT handler of the driver: the solver processes run in their own sessions, so take them down explicitly."""
+    with _live_lock:
+        for p in list(_live):
+            try:
+                os.killpg(p.pid, signal.SIGKILL)
+            except Exception:
+                pass
+    if signum is not None:
+        os._exit(130)
+
+
+def install_signal_handlers():
+    signal.signal(signal.SIGTERM, _kill_all)
+    signal.signal(signal.SIGINT, _kill_all)
+
+
 def run_limited(cmd, timeout, mem_gb=16, cwd=None, env=None, outfile=None):
     """Run a command in its own session with an address-space limit; output goes to outfile.
     Returns (rc, seconds, timed_out, maxrss_kb, None)."""
@@ -190,6 +211,8 @@ def run_limited(cmd, timeout, mem_gb=16, cwd=None, env=None, outfile=None):
     with open(outfile, "w") as out:
         p = subprocess.Popen(["/usr/bin/time", "-f", "VFTIME %e %M", "-o", tf] + cmd, stdout=out, stderr=subprocess.STDOUT,
                              cwd=cwd, env=env, preexec_fn=_limits(mem_gb))
+        with _live_lock:
+            _live.add(p)
         to = False
         try:
             p.wait(timeout=timeout)
@@ -200,6 +223,8 @@ def run_limited(cmd, timeout, mem_gb=16, cwd=None, env=None, outfile=None):
             except ProcessLookupError:
                 pass
             p.wait()
+        with _live_lock:
+            _live.discard(p)
     rss = 0
     if os.path.exists(tf):
         m = re.search(r"VFTIME (\S+) (\d+)", open(tf).read())
